@@ -219,6 +219,14 @@ def run(ck: Check):
             cmds.append(((("--strategy", strat, "eq"), ("--min", "2", "sep"), ("--max", "4", "sep"), ("--repeat", "always", "sep")),
                          "yes.py", ("--min", "8", "--max=16", "--repeat", "never", "-c", "t.txt")))
             cmds.append(((("--repeat-first-round",), ("--max", "8", "eq"), ("--strategy", strat, "sep")), "yes.py", ("t.txt",)))
+        # how many words follow the test name: none at all (possible with --testcase: the test takes no arguments), one,
+        # two, three - for each way of naming the test and with other options around
+        for form in ("sep", "eq"):
+            for more in ((), (("-c",),), (("--strategy", "check-only", "eq"),), (("--min", "2", "sep"), ("--char",))):
+                for nm in ("yes.py", "d/yes.py", "yes", os.path.join(work, "d", "yes.py")):
+                    for rest_ in ((), ("t.txt",), ("-x", "t.txt"), ("a", "--min", "4")):
+                        cmds.append(((("--testcase", "other.txt", form),) + more, nm, rest_))
+                        cmds.append((more + (("--testcase", "other.txt", form),), nm, rest_))
         for v in ("0", "1"):
             cmds.append(((("--max-run-time", v, "sep"),), "yes.py", ("t.txt",)))
             cmds.append(((("--strategy", "minimize-around", "eq"), ("--max-run-time", v, "eq")), "yes.py", ("t.txt",)))
